@@ -171,6 +171,7 @@ type ConnMon struct {
 
 func NewConnMon(name string, c *simnet.Conn) *ConnMon {
 	m := &ConnMon{Name: name, conn: c}
+	liveMons = append(liveMons, m)
 	m.Req = &StreamMon{Name: name + ".req", KeepRaw: false}
 	m.Rep = &StreamMon{Name: name + ".rep", KeepRaw: false}
 	m.Req.OnFrame = m.onReq
